@@ -4,7 +4,7 @@ Parts
   accuracy   (method among the embedded pairs and sampled Richardson wrappers, linear system with exact exponential
              solution or manufactured nonlinear problem, span of either direction, initial dt from 1e-4 to 4 x span,
              tolerance drawn per method so that the run stays below ~3000 steps). Oracles:
-             1. max_k |y_k - y*(t_k)| <= KACC x (atol + rtol max|y|) x amplification x sqrt(max(N, 1))
+             1. max_k |y_k - y*(t_k)| <= KACC (= 25) x (atol + rtol max|y|) x amplification x sqrt(max(N, 1))
              2. the same run at tol/100: the error bound of oracle 1 holds there too and the number of steps grows
                 (proportionality is asserted through oracle 1 at both tolerances, plus: the tighter run is not
                 less accurate by more than 10x)
@@ -34,8 +34,8 @@ ID = "C05"
 LEVEL = "exploration"
 RULE = ("Hypothesis-generated (adaptive method, problem with exact solution, span, initial dt, tolerance). Distinct = SHA-1 of the "
         "case JSON. Non-trivial = a run with >= 1 rejected step, or backward, or an initial dt larger than the span.")
-KACC = 60.0
-ASSUMPTIONS = ["accuracy constant KACC = 60 x sqrt(N) x amplification (exp(mu T) for linear, exp(L T) for manufactured problems, capped by construction at e^3); calibrated: worst observed ratio is published as worst_observed['err/bound']",
+KACC = 25.0
+ASSUMPTIONS = ["accuracy constant KACC = 25 x sqrt(N) x amplification (exp(mu T) for linear, exp(L T) for manufactured problems, capped by construction at e^3); calibrated: worst observed ratio is published as worst_observed['err/bound']",
                "RK1412 on problems with max|h lambda| >= 2 is an open finding (D22) matched narrowly"]
 
 RICH = ["Rich3:RK4Solver", "Rich3:MidpointSolver", "Rich2:RK45CKSolver", "Rich4:HeunEulerSolver", "Rich3:ImplicitMidpoint", "Rich3:ABAs5o6HSolver"]
